@@ -66,6 +66,7 @@ type Spec struct {
 	InitPkgs   []string // harness dir names whose package init is interpreted (in order)
 	Jobs       func(tier string) []Job
 	Setup      func(e *sym.Engine, st *sym.State, l *sym.Loaded) // per-worker: stubs, redirects, natives
+	ContractStubs string // non-empty: library contract stubs may admit values the real library never produces
 	AbstractHash bool // the hash is an uninterpreted function: counterexamples may need collisions the real hash lacks
 	Prepare    func(rc *RunCtx) error                            // once per run, before jobs are listed
 	MustReach  []string
@@ -583,7 +584,9 @@ func (rc *RunCtx) processEvents() {
 		case "skip":
 			rc.Notes = append(rc.Notes, "spurious counterexample (not realisable through the public API / assumption violated natively): "+desc+" :: "+lastLines(o.ro.output, 3))
 		case "ok":
-			if rc.Spec.AbstractHash {
+			if rc.Spec.ContractStubs != "" {
+				rc.Notes = append(rc.Notes, "counterexample under a contract stub not reproduced natively ("+rc.Spec.ContractStubs+"): "+desc)
+			} else if rc.Spec.AbstractHash {
 				rc.Notes = append(rc.Notes, "abstract counterexample not reproduced natively (it needs a hash collision that the real hash function may not have; outside the claim): "+desc)
 			} else {
 				rc.Infra = append(rc.Infra, "counterexample did not reproduce natively (encoder or stub mismatch): "+desc)
